@@ -12,7 +12,8 @@ def run():
     # every module parses
     bad = 0
     for tla in sorted(glob.glob(os.path.join(common.SPEC, "*.tla"))):
-        r = subprocess.run(["java", "-cp", common.JARS, "tla2sany.SANY", tla], cwd=common.SPEC,
+        # (HashTableInd extends the Apalache module, which lives in apalache.jar)
+        r = subprocess.run(["java", "-cp", common.JARS + ":/opt/veriftools/apalache/lib/apalache.jar", "tla2sany.SANY", tla], cwd=common.SPEC,
                            stdout=subprocess.PIPE, stderr=subprocess.STDOUT, text=True)
         if r.returncode != 0 or "*** Errors" in r.stdout or "Fatal" in r.stdout:
             print("SANY failed on " + tla)
